@@ -78,7 +78,17 @@ def split_path(p):
     return out
 
 
+_HI = {}
+
+
 def head_ident(ty):
+    r = _HI.get(ty)
+    if r is None:
+        r = _HI[ty] = _head_ident(ty)
+    return r
+
+
+def _head_ident(ty):
     """normalised head identifier of a type: std::option::Option<&str> -> Option"""
     ty = strip_ref(ty)
     if ty.startswith('{closure@'):
@@ -144,7 +154,19 @@ class CallInfo:
         self.arg_tys = None
 
 
+_PCN = {}
+
+
 def parse_call_name(text):
+    t = _PCN.get(text)
+    if t is None:
+        t = _PCN[text] = _parse_call_name(text)
+    ci = CallInfo(text)
+    ci.T, ci.trait, ci.method, ci.generics = t.T, t.trait, t.method, t.generics
+    return ci
+
+
+def _parse_call_name(text):
     ci = CallInfo(text)
     t = text.strip()
     if t.startswith('<'):
@@ -211,6 +233,8 @@ class DefIndex:
     def __init__(self, module, repo):
         self.module = module
         self.by_method = {}
+        self.cache = {}
+        self.pty_cache = {}
         self._src = {}
         self.repo = repo
         for name, fn in module.fns.items():
@@ -323,6 +347,7 @@ class Machine:
         self.used_contracts = {}  # key -> count
         self.depth = 0
         self.trace = None
+        self._pty = self.defs.pty_cache
 
     # -- memory -------------------------------------------------------------
     def load(self, ref):
@@ -430,6 +455,15 @@ class Machine:
 
     # -- types ----------------------------------------------------------------
     def place_ty(self, fn, place):
+        if not place.proj:
+            return fn.locals[place.local]
+        key = (id(fn), id(place))
+        r = self._pty.get(key)
+        if r is None:
+            r = self._pty[key] = self._place_ty(fn, place)
+        return r
+
+    def _place_ty(self, fn, place):
         ty = fn.locals[place.local]
         for p in place.proj:
             k = p[0]
@@ -737,38 +771,38 @@ class Machine:
         A = bv(a, bits)
         B = bv(b, bits)
         if op in ('Add', 'AddUnchecked'):
-            return simp(A + B)
+            return lite(A + B)
         if op in ('Sub', 'SubUnchecked'):
-            return simp(A - B)
+            return lite(A - B)
         if op in ('Mul', 'MulUnchecked'):
-            return simp(A * B)
+            return lite(A * B)
         if op == 'AddWithOverflow':
             ovf = z3.Not(z3.BVAddNoOverflow(A, B, signed)) if not signed else z3.Not(z3.And(z3.BVAddNoOverflow(A, B, True), z3.BVAddNoUnderflow(A, B)))
-            return tup(simp(A + B), simp(ovf))
+            return tup(lite(A + B), lite(ovf))
         if op == 'SubWithOverflow':
             ovf = z3.Not(z3.BVSubNoUnderflow(A, B, signed)) if not signed else z3.Not(z3.And(z3.BVSubNoOverflow(A, B), z3.BVSubNoUnderflow(A, B, True)))
-            return tup(simp(A - B), simp(ovf))
+            return tup(lite(A - B), lite(ovf))
         if op == 'MulWithOverflow':
             ovf = z3.Not(z3.BVMulNoOverflow(A, B, signed)) if not signed else z3.Not(z3.And(z3.BVMulNoOverflow(A, B, True), z3.BVMulNoUnderflow(A, B)))
-            return tup(simp(A * B), simp(ovf))
+            return tup(lite(A * B), lite(ovf))
         if op == 'Eq':
-            return simp(A == B)
+            return lite(A == B)
         if op == 'Ne':
-            return simp(A != B)
+            return lite(A != B)
         if op == 'Lt':
-            return simp(A < B if signed else z3.ULT(A, B))
+            return lite(A < B if signed else z3.ULT(A, B))
         if op == 'Le':
-            return simp(A <= B if signed else z3.ULE(A, B))
+            return lite(A <= B if signed else z3.ULE(A, B))
         if op == 'Gt':
-            return simp(A > B if signed else z3.UGT(A, B))
+            return lite(A > B if signed else z3.UGT(A, B))
         if op == 'Ge':
-            return simp(A >= B if signed else z3.UGE(A, B))
+            return lite(A >= B if signed else z3.UGE(A, B))
         if op == 'BitAnd':
-            return simp(A & B)
+            return lite(A & B)
         if op == 'BitOr':
-            return simp(A | B)
+            return lite(A | B)
         if op == 'BitXor':
-            return simp(A ^ B)
+            return lite(A ^ B)
         raise EncoderGap('symbolic binop %s' % op)
 
     @staticmethod
@@ -898,6 +932,9 @@ class Machine:
             if t.otherwise is None:
                 raise EncoderGap('switch fallthrough')
             return t.otherwise
+        merged = self.try_merge_diamond(fr, t, v)
+        if merged is not None:
+            return merged
         if z3.is_bool(v):
             # targets are 0 / otherwise typically
             conds = []
@@ -921,6 +958,73 @@ class Machine:
             dests.append(t.otherwise)
         return dests[self.ctx.choose(conds)]
 
+    def try_merge_diamond(self, fr, t, v):
+        """switch on a symbolic value whose arms are straight-line constant assignments meeting in one
+        join block: execute all arms and merge the assigned locals with ite instead of forking"""
+        fn = fr.fn
+        dests = [bbn for _, bbn in t.targets]
+        if t.otherwise is not None:
+            dests.append(t.otherwise)
+        join = None
+        for bbn in set(dests):
+            blk = fn.blocks[bbn]
+            if blk.term is None or blk.term.kind != 'goto':
+                return None
+            if join is None:
+                join = blk.term.target
+            elif join != blk.term.target:
+                return None
+            for st in blk.stmts:
+                if st.kind != 'assign' or st.place.proj:
+                    return None
+                rv = st.rv
+                if rv.kind == 'use' and rv.a.kind == 'const' and rv.a.const.kind in ('bool', 'int', 'char'):
+                    continue
+                if rv.kind == 'adt_unit':
+                    continue
+                return None
+        if join is None:
+            return None
+        # conditions per arm
+        if z3.is_bool(v):
+            conds = [(v if val else z3.Not(v)) for val, _ in t.targets]
+        else:
+            bits = v.size()
+            conds = [v == z3.BitVecVal(norm(val, bits), bits) for val, _ in t.targets]
+        if t.otherwise is not None:
+            conds.append(z3.And(*[z3.Not(c) for c in conds]) if conds else z3.BoolVal(True))
+        # evaluate arms
+        results = []
+        for bbn in dests:
+            upd = {}
+            for st in fn.blocks[bbn].stmts:
+                dty = fn.locals[st.place.local]
+                val = self.eval_rvalue(fr, st.rv, dty)
+                if not (isinstance(val, (int, bool, CEnum)) or is_sym(val)):
+                    return None
+                upd[st.place.local] = val
+            results.append(upd)
+        keys = set()
+        for u in results:
+            keys |= set(u)
+        for u in results:
+            if set(u) != keys:
+                return None
+        for k in keys:
+            vals = [u[k] for u in results]
+            acc = vals[-1]
+            for c, val in zip(reversed(conds[:-1]), reversed(vals[:-1])):
+                if isinstance(val, CEnum):
+                    if not isinstance(acc, CEnum) or acc.ty != val.ty:
+                        return None
+                    acc = CEnum(val.ty, b_ite(c, bv(val.disc, val.bits), bv(acc.disc, acc.bits)), val.bits)
+                else:
+                    if isinstance(acc, CEnum):
+                        return None
+                    acc = b_ite(c, val, acc)
+            fr.locals[k] = acc
+        return join
+
     # -- calls -----------------------------------------------------------------
     def call_path(self, func, args, frame, dest_ty, term=None):
         # call through a local holding a fn value:  `move _5(args)`
@@ -942,12 +1046,19 @@ class Machine:
         # closure / fn-trait calls
         if ci.trait and head_ident(ci.trait) in ('Fn', 'FnMut', 'FnOnce') and ci.method in ('call', 'call_mut', 'call_once'):
             return self.call_value(args[0], list(args[1].fields) if isinstance(args[1], Agg) and args[1].ty == 'tuple' else args[1:])
-        fn = self.defs.resolve(ci)
+        cached = self.defs.cache.get(func)
+        if cached is None:
+            fn = self.defs.resolve(ci)
+            c = None
+            if fn is None:
+                c = self.contracts.lookup(ci)
+                if c is None:
+                    raise EncoderGap('no contract for foreign call `%s`' % func)
+            cached = self.defs.cache[func] = (fn, c, getattr(ci, 'key', None))
+        fn, c, key = cached
         if fn is not None:
             return self.call_fn(fn, args)
-        c = self.contracts.lookup(ci)
-        if c is None:
-            raise EncoderGap('no contract for foreign call `%s`' % func)
+        ci.key = key
         self.used_contracts[c.__name__] = self.used_contracts.get(c.__name__, 0) + 1
         return c(self, args, ci)
 
